@@ -50,7 +50,9 @@ func runInstance(ld *Loaded, sol *Solver, inst Instance, opt runOpts) (res InstR
 	h := &runHooks{aborted: map[string]int{}, reached: map[string]bool{}, kfOpen: opt.kfOpen, concrete: opt.concrete}
 	ex.hooks = h
 	var entry func(ex *Exec)
-	if strings.HasPrefix(inst.Harness, "@kernel:") {
+	if inst.Harness == "@asm:divmod" {
+		entry = func(ex *Exec) { runAsmDivmod(ex) }
+	} else if strings.HasPrefix(inst.Harness, "@kernel:") {
 		kn := strings.TrimPrefix(inst.Harness, "@kernel:")
 		kfn := ld.pkgs["gorgonia.org/tensor/internal/execution"].Func(kn)
 		if kfn == nil {
